@@ -13,6 +13,7 @@
 #include <sys/socket.h>
 #include <atomic>
 #include <algorithm>
+#include <sys/epoll.h>
 #include <mutex>
 #include <thread>
 #include <chrono>
@@ -45,6 +46,10 @@ struct Interpose {
     std::atomic<int> acceptorDelayMs{0}; std::atomic<long> acceptorDelays{0};
     // every recv of the process on a descriptor without a script of its own returns at most 1..globalRecvCapMax bytes (pseudo-random per
     // call): forces a segmentation on BOTH ends of an in-process client <-> server exchange
+    // every epoll_wait of the process is preceded by a pause of 0..pollDelayMaxMs (half of the calls: none): the loop threads come back to their
+    // pollers late, as on a busy machine, and find several readiness changes at once - input together with the housekeeping tick, a connection
+    // readable and writable in one event, whole batches of new peers and queued writes.  A delay at an existing suspension point, nothing else.
+    std::atomic<int> pollDelayMaxMs{0}; std::atomic<unsigned long> pollDelayCtr{0}; std::atomic<long> pollDelays{0};
     std::atomic<int> globalRecvCapMax{0}; std::atomic<unsigned long> globalRecvCtr{0}; std::atomic<long> globalRecvCapped{0};
 };
 inline thread_local bool tl_is_acceptor = false;
@@ -145,6 +150,16 @@ ssize_t write(int fd, const void* buf, size_t len) {
     ssize_t r = real(fd, buf, len);
     if (len == 8 && lv::tl_is_acceptor) { int d = lv::ip().acceptorDelayMs.load(std::memory_order_relaxed); if (d > 0) { lv::ip().acceptorDelays++; int e = errno; usleep((useconds_t)d * 1000); errno = e; } }
     return r;
+}
+int epoll_wait(int epfd, struct epoll_event* events, int maxevents, int timeout) {
+    typedef int (*epoll_wait_fn)(int, struct epoll_event*, int, int);
+    static epoll_wait_fn real = (epoll_wait_fn)dlsym(RTLD_NEXT, "epoll_wait");
+    lv::Interpose& I = lv::ip();
+    if (int mx = I.pollDelayMaxMs.load(std::memory_order_relaxed)) {
+        unsigned long z = I.pollDelayCtr.fetch_add(1, std::memory_order_relaxed) * 0x9E3779B97F4A7C15ul + 0x7654321ul; z ^= z >> 31; z *= 0xBF58476D1CE4E5B9ul; z ^= z >> 29;
+        if (z & 1) { usleep((useconds_t)(1 + (z >> 8) % (unsigned long)mx) * 1000); I.pollDelays++; }
+    }
+    return real(epfd, events, maxevents, timeout);
 }
 int accept4(int fd, struct sockaddr* a, socklen_t* l, int flags) {
     static accept4_fn real = (accept4_fn)dlsym(RTLD_NEXT, "accept4");
